@@ -166,6 +166,7 @@ fn panic_sweep() -> Result<String, String> {
     ("storage_faults", storage::faults),
     ("statuslist_oneway", statuslist::oneway),
     ("malformed_inputs", malformed::malformed),
+    ("verifier_dispatch", verifiers::dispatch),
   ];
   let mut found = Vec::new();
   for (name, f) in all {
